@@ -12,6 +12,7 @@ nodes created by a call (shared with TreeOps!Rekey): next keys in the order
 """
 import itertools
 import random
+from fractions import Fraction
 import resource
 import signal
 
@@ -114,10 +115,35 @@ def nested_of_graph(g):
     return mk(g["seed"])
 
 
+SCALE_EXPONENTS = (0, -23, -10, 10, 20)     # C07: every length multiplied by 2**e (exact in floating point)
+
+
+def dup_labels(n):
+    """labels of a namespace holding distinct Taxon objects with equal and with case-variant labels"""
+    labs = list(TAXON_LABELS[:n])
+    if n >= 2:
+        labs[1] = labs[0]
+    if n >= 4:
+        labs[3] = labs[2].lower()
+    return labs
+
+
+def scale_nested(nested, f):
+    lab, tx, ln, kids = nested
+    return [lab, tx, None if ln is None else ln * f, [scale_nested(k, f) for k in kids]]
+
+
 class World(object):
-    def __init__(self, dendropy, nested, rooted, ntaxa, want_api=False, encoded=False):
+    def __init__(self, dendropy, nested, rooted, ntaxa, want_api=False, encoded=False, duplabels=False, sexp=0):
         self.d = dendropy
-        self.ns, self.taxa = build.make_namespace(dendropy, ntaxa, labels=TAXON_LABELS[:ntaxa])
+        self.duplabels = duplabels
+        self.sexp = sexp
+        self.factor = 2.0 ** sexp                              # real length = model length / SCALE * factor
+        self.pscale = Fraction(SCALE) / Fraction(2) ** sexp    # logged length = real length * pscale (exact)
+        labels = dup_labels(ntaxa) if duplabels else TAXON_LABELS[:ntaxa]
+        self.ns, self.taxa = build.make_namespace(dendropy, ntaxa, labels=labels)
+        if sexp:
+            nested = scale_nested(nested, self.factor)
         self.tree = build.build_tree(dendropy, nested, self.ns, self.taxa, rooted=bool(rooted))
         if encoded:      # the start tree carries a current encoding (structure untouched)
             self.tree.encode_bipartitions(suppress_unifurcations=False, collapse_unrooted_basal_bifurcation=False)
@@ -133,7 +159,7 @@ class World(object):
     # -------------------------------------------------------------- projection
     def snapshot(self):
         ids = {}
-        g = proj.tree_graph(self.tree, scale=SCALE, node_ids=ids, labels=False)
+        g = proj.tree_graph(self.tree, scale=self.pscale, node_ids=ids, labels=False)
         order = ids.pop("__order__")
         g["key"] = [self.keys.get(id(nd), 0) for nd in order]
         bl, bs = [], []
@@ -200,7 +226,7 @@ class World(object):
         out = {"len": -3, "pd": []}
         r, v = guarded(lambda: self.tree.length())
         if r == "":
-            out["len"] = proj.scaled_len(v, SCALE)
+            out["len"] = proj.scaled_len(v, self.pscale)
         def pd():
             m = self.tree.phylogenetic_distance_matrix()
             res = []
@@ -208,7 +234,7 @@ class World(object):
             codes = proj.TaxonCodes(self.ns)
             for a, b in itertools.combinations(tx, 2):
                 ca, cb = codes.code(a), codes.code(b)
-                res.append([min(ca, cb), max(ca, cb), proj.scaled_len(m.patristic_distance(a, b), SCALE)])
+                res.append([min(ca, cb), max(ca, cb), proj.scaled_len(m.patristic_distance(a, b), self.pscale)])
             return res
         r, v = guarded(pd)
         if r == "":
@@ -234,10 +260,13 @@ class World(object):
         """a: dict of arguments; node arguments are keys.  Returns the event (or None if an argument
         cannot be resolved in the real tree: the real history diverged from the model's)."""
         pre, order = self.cur
+        if self.duplabels and a.get("api"):
+            a = dict(a, api="")          # labels do not identify taxa here: object API only
         ev = {"action": action, "x": 0, "y": 0, "i": int(a.get("i", 0)), "S": sorted(a.get("S", [])),
               "ub": bool(a.get("ub", False)), "su": bool(a.get("su", False)), "cb": bool(a.get("cb", False)),
               "l1": int(a.get("l1", -1)), "l2": int(a.get("l2", -1)), "f": bool(a.get("f", False)),
-              "seed": int(a.get("seed", 0)), "api": a.get("api", ""), "ntaxa": self.ntaxa}
+              "seed": int(a.get("seed", 0)), "api": a.get("api", ""), "ntaxa": self.ntaxa, "sexp": self.sexp,
+              "duplabels": self.duplabels}
         nd = par = None
         if "x" in a:
             nd, ev["x"] = self.node_of_key(a["x"])
@@ -281,6 +310,7 @@ class World(object):
 
     def _thunk(self, action, a, nd, par):
         t = self.tree
+        real_len = lambda v: None if v < 0 else v / float(SCALE) * self.factor
         ub, su, cb = bool(a.get("ub", False)), bool(a.get("su", False)), bool(a.get("cb", False))
         f = bool(a.get("f", False))
         if action == "ReseedAt":
@@ -318,12 +348,12 @@ class World(object):
             return lambda: t.prune_subtree(nd, update_bipartitions=ub, suppress_unifurcations=su)
         if action == "PruneTaxa":
             taxa = self._taxa(a["S"])
-            if a.get("api") == "labels":
+            if a.get("api") == "labels" and not self.duplabels:
                 return lambda: t.prune_taxa_with_labels([x.label for x in taxa], update_bipartitions=ub, suppress_unifurcations=su)
             return lambda: t.prune_taxa(taxa, update_bipartitions=ub, suppress_unifurcations=su)
         if action == "RetainTaxa":
             taxa = self._taxa(a["S"])
-            if a.get("api") == "labels":
+            if a.get("api") == "labels" and not self.duplabels:
                 return lambda: t.retain_taxa_with_labels([x.label for x in taxa], update_bipartitions=ub, suppress_unifurcations=su)
             return lambda: t.retain_taxa(taxa, update_bipartitions=ub, suppress_unifurcations=su)
         if action == "FilterLeafNodes":
@@ -451,7 +481,8 @@ def run_case(case):
     limit_memory()
     want_api = case.get("prop") == "C07"
     if case["kind"] == "path":
-        w = World(dendropy, case["nested"], case["rooted"], case["ntaxa"], want_api=want_api, encoded=case.get("encoded", False))
+        w = World(dendropy, case["nested"], case["rooted"], case["ntaxa"], want_api=want_api, encoded=case.get("encoded", False),
+                  duplabels=case.get("duplabels", False), sexp=case.get("sexp", 0))
         evs = []
         path = case["path"]
         for k, (name, args) in enumerate(path):
@@ -475,7 +506,8 @@ def random_history(dendropy, case, want_api):
     shape = build.random_parents(rng, nl, p_poly=0.25, p_unif=0.08 if case.get("unif") else 0.0)
     nested = build.assign(shape, rng, list(range(nl)), lengths=lens)
     nested[2] = None if rng.random() < 0.8 else 1
-    w = World(dendropy, nested, case["rooted"], nl, want_api=want_api, encoded=case.get("encoded", False))
+    w = World(dendropy, nested, case["rooted"], nl, want_api=want_api, encoded=case.get("encoded", False),
+              duplabels=case.get("duplabels", False), sexp=case.get("sexp", 0))
     fam = case["fam"]
     evs = []
     B = lambda: rng.random() < 0.5
@@ -623,6 +655,7 @@ def random_cases(ctx, prop, n, nops, salt):
             pat = (0, 1, 1, 2)
         out.append({"kind": "random", "prop": prop, "seed": rng.randrange(1 << 30), "nleaves": rng.randint(5, 12),
                     "lengths": list(pat), "rooted": i % 2, "nops": nops, "unif": (i % 3 == 0), "encoded": (i % 4 == 1),
+                    "duplabels": (prop == "C03" and i % 3 == 2), "sexp": (SCALE_EXPONENTS[i % 5] if prop == "C07" else 0),
                     "fam": REORIENT_FAM if prop == "C07" else ALL_FAM})
     return out
 
@@ -645,8 +678,17 @@ def model_cases(ctx, prop, cfg, tag, max_cases=None):
         if u not in paths:
             continue
         nested, rooted, ntaxa = starts[root[u]]
-        cases.append({"kind": "path", "prop": prop, "nested": nested, "rooted": rooted, "ntaxa": ntaxa,
-                      "encoded": len(cases) % 2 == 1, "path": paths[u] + [(name, args)]})
+        k = len(cases)
+        c = {"kind": "path", "prop": prop, "nested": nested, "rooted": rooted, "ntaxa": ntaxa, "encoded": k % 2 == 1,
+             # C03: every third start tree lives in a namespace with duplicate / case-variant labels;
+             # C07: the lengths of the start tree and of the arguments are multiplied by an exact power of two
+             "duplabels": prop == "C03" and k % 3 == 2, "sexp": SCALE_EXPONENTS[k % 5] if prop == "C07" else 0,
+             "path": paths[u] + [(name, args)]}
+        cases.append(c)
+        if prop == "C07" and name == "RerootAtMidpoint":       # midpoint rooting at every scale
+            for e in SCALE_EXPONENTS:
+                if e != c["sexp"]:
+                    cases.append(dict(c, sexp=e))
     if max_cases is not None and len(cases) > max_cases:
         rng = random.Random(ctx.seed + 77)
         cases = rng.sample(cases, max_cases)
